@@ -247,6 +247,11 @@ def run(prop, tier, seed):
                                                         {"refuted_by_TLC": False, "note": "not needed by any listed property at the model's granularity (field segments are atomic)"})
                                                     for f, k in kill.items()}}
         if prop == "C14":
+            # allocation-failure points of C08 on the OLC index: no lock left behind by a failed call
+            t1 = time.time()
+            import check_fault
+            cov["fault_sequences_on_olc"] = check_fault.olc_fault_liveness(rep, tier, seed)
+            phases["fault_sequences_on_olc"] = round(time.time() - t1, 1)
             # design level: no reachable state of the interleaving graphs from which the operations cannot all return
             t1 = time.time()
             traps = {}
